@@ -1577,3 +1577,6 @@ SILENT = [
         (_W, "            val = eval(code)\n            self._prof.prof('rank_stop', uid=uid)\n            out = strout.getvalue()\n            err = strerr.getvalue()\n            exc = (None, None)\n            ret = 0\n",
              "            val = eval(code)\n            self._prof.prof('rank_stop', uid=uid)\n            out = strout.getvalue()\n            err = strerr.getvalue()\n            ret, exc = 0, (None, None)\n")]),
 ]
+
+from .c14 import corpus_variants          # noqa: E402
+SILENT += corpus_variants('C20')
